@@ -1,8 +1,13 @@
 ---------------------------- MODULE Selector ----------------------------
 (***************************************************************************)
 (* AutonomousModeSelector, lifecycle part (C14): which mode is active and  *)
-(* which callbacks it receives through start() / periodic() / disable().   *)
-(* (run() periods inside the robot loop are part of MagicRobot.tla.)       *)
+(* which callbacks it receives through start() / periodic() / disable(),   *)
+(* or through run(): one blocking call per autonomous period that is, in   *)
+(* terms of this module, Start (its own timer + on_enable), one Periodic   *)
+(* per loop iteration - iter_fn may call disable() or change the selection *)
+(* in between - a Tick per NotifierDelay.wait(), and a closing Disable.    *)
+(* Events of a run() period carry via = "run".                             *)
+(* (run() periods inside the robot loop are also part of MagicRobot.tla.)  *)
 (* sh = [modes : set of names, defmode : name or "none"].                  *)
 (* Time in microseconds of FPGA time.                                      *)
 (* Dev: no_clear_on_disable (the active mode is not forgotten).            *)
@@ -10,45 +15,58 @@
 EXTENDS Integers, Sequences, FiniteSets, TLC
 CONSTANTS Dev
 None == "none"
-VARIABLES sh, now, selStr, chooser, active, started, t0, out, life
-slvars == <<sh, now, selStr, chooser, active, started, t0, out, life>>
+VARIABLES sh, now, selStr, chooser, active, started, t0, out, life,
+          inRun, rt0       \* inside a run() call; the origin of run()'s own timer
+slvars == <<sh, now, selStr, chooser, active, started, t0, out, life, inRun, rt0>>
 \* life[m] : "idle" | "enabled" - a mode's on_enable/on_disable bracket
 
 Init(shape) ==
     /\ sh = shape /\ now = 0 /\ selStr = "" /\ chooser = shape.defmode /\ active = None /\ started = FALSE /\ t0 = 0
-    /\ out = <<>> /\ life = [m \in shape.modes |-> "idle"]
+    /\ out = <<>> /\ life = [m \in shape.modes |-> "idle"] /\ inRun = FALSE /\ rt0 = 0
 
-Tick(d) == now' = now + d /\ out' = <<>> /\ UNCHANGED <<sh, selStr, chooser, active, started, t0, life>>
+Tick(d) == now' = now + d /\ out' = <<>> /\ UNCHANGED <<sh, selStr, chooser, active, started, t0, life, inRun, rt0>>
 \* the dashboard's "Auto Selector" string
-SetString(s) == selStr' = s /\ out' = <<>> /\ UNCHANGED <<sh, now, chooser, active, started, t0, life>>
+SetString(s) == selStr' = s /\ out' = <<>> /\ UNCHANGED <<sh, now, chooser, active, started, t0, life, inRun, rt0>>
 \* a selection made on the chooser widget; "None" - and, with wpilib's SendableChooser, any unknown
 \* option - selects no mode
 ChooserSelect(s) ==
     /\ chooser' = IF s \in sh.modes THEN s ELSE None
-    /\ out' = <<>> /\ UNCHANGED <<sh, now, selStr, active, started, t0, life>>
+    /\ out' = <<>> /\ UNCHANGED <<sh, now, selStr, active, started, t0, life, inRun, rt0>>
 
 Chosen == IF selStr \in sh.modes THEN selStr ELSE chooser
 \* start() without a disable() since the previous start() is allowed ("it is okay to not call disable() if you do
 \* not need on_disable"): the previously active mode is simply abandoned and must not hear from the selector again
-Start ==
-    /\ active' = Chosen /\ started' = TRUE /\ t0' = now
+Start(run) ==
+    /\ ~inRun
+    /\ active' = Chosen
+    \* start() keeps its timer on the selector (periodic() reads it); run() has a timer of its own
+    /\ IF run THEN inRun' = TRUE /\ rt0' = now /\ UNCHANGED <<started, t0>>
+              ELSE started' = TRUE /\ t0' = now /\ UNCHANGED <<inRun, rt0>>
     /\ out' = IF Chosen # None THEN <<[m |-> Chosen, k |-> "on_enable"]>> ELSE <<>>
     /\ life' = [m \in sh.modes |-> IF m = Chosen THEN "enabled" ELSE IF m = active THEN "idle" ELSE life[m]]
     /\ UNCHANGED <<sh, now, selStr, chooser>>
-Periodic ==
-    /\ started
-    /\ out' = IF active # None THEN <<[m |-> active, k |-> "on_iteration", t |-> now - t0]>> ELSE <<>>
-    /\ UNCHANGED <<sh, now, selStr, chooser, active, started, t0, life>>
-Disable ==
+Periodic(run) ==
+    /\ IF run THEN inRun ELSE started /\ ~inRun
+    /\ out' = IF active # None THEN <<[m |-> active, k |-> "on_iteration", t |-> now - (IF run THEN rt0 ELSE t0)]>> ELSE <<>>
+    /\ UNCHANGED <<sh, now, selStr, chooser, active, started, t0, life, inRun, rt0>>
+\* last: the disable() run() itself makes when the autonomous period is over
+Disable(last) ==
+    /\ last => inRun
     /\ out' = IF active # None THEN <<[m |-> active, k |-> "on_disable"]>> ELSE <<>>
     /\ life' = IF active # None THEN [life EXCEPT ![active] = "idle"] ELSE life
     /\ active' = IF "no_clear_on_disable" \in Dev THEN active ELSE None
-    /\ UNCHANGED <<sh, now, selStr, chooser, started, t0>>
+    /\ inRun' = (IF last THEN FALSE ELSE inRun)
+    /\ UNCHANGED <<sh, now, selStr, chooser, started, t0, rt0>>
 
-EvEnabled(ev) == CASE ev.e = "start" -> TRUE [] ev.e = "periodic" -> started
-                   [] ev.e \in {"tick", "str", "choose", "disable"} -> TRUE [] OTHER -> FALSE
+ViaRun(ev) == "via" \in DOMAIN ev /\ ev.via = "run"
+IsLast(ev) == "last" \in DOMAIN ev /\ ev.last
+EvEnabled(ev) == CASE ev.e = "start" -> ~inRun
+                   [] ev.e = "periodic" -> IF ViaRun(ev) THEN inRun ELSE started /\ ~inRun
+                   [] ev.e = "disable" -> IsLast(ev) => inRun
+                   [] ev.e \in {"tick", "str", "choose"} -> TRUE [] OTHER -> FALSE
 EvNext(ev) == CASE ev.e = "tick" -> Tick(ev.d) [] ev.e = "str" -> SetString(ev.s) [] ev.e = "choose" -> ChooserSelect(ev.s)
-                [] ev.e = "start" -> Start [] ev.e = "periodic" -> Periodic [] ev.e = "disable" -> Disable
+                [] ev.e = "start" -> Start(ViaRun(ev)) [] ev.e = "periodic" -> Periodic(ViaRun(ev))
+                [] ev.e = "disable" -> Disable(IsLast(ev))
 
 (* C14 (lifecycle part) *)
 \* only the active mode ever receives a callback
@@ -61,6 +79,6 @@ C14_Bracket == [][\A i \in 1..Len(out') :
 C14_AtMostOneEnabled == Cardinality({m \in sh.modes : life[m] = "enabled"}) <= 1
 C14_EnabledIsActive == \A m \in sh.modes : life[m] = "enabled" => active = m
 \* the dashboard string wins when it names a mode, else the chooser
-C14_Selection == [][((started' /\ t0' # t0) \/ (~started /\ started')) => active' = (IF selStr \in sh.modes THEN selStr ELSE chooser)]_slvars
+C14_Selection == [][((started' /\ t0' # t0) \/ (~started /\ started') \/ (~inRun /\ inRun')) => active' = (IF selStr \in sh.modes THEN selStr ELSE chooser)]_slvars
 C14_ElapsedNonNegative == \A i \in 1..Len(out) : out[i].k = "on_iteration" => out[i].t >= 0
 =============================================================================
